@@ -201,15 +201,14 @@ Proof. exact neval_lift. Qed.
 Print Assumptions C10_neval_lift.
 
 (* ---------- nest_funcs ---------- *)
-(* nest_preserves, soundness direction: whenever the pipeline produced by nest_funcs(names, new_out) computes a
-   value for an output, the original pipeline computes that same value for the same keywords - provided the
-   keywords do not name an output produced inside the nested group, every output of the group that a function
-   outside consumes is kept (new_out); outputs are unique, defaults consistent and declared for parameters
-   (what construction checks).
-   NOT proved: the converse (the nested pipeline succeeds whenever the original does and all arguments of the
-   nested function have values); it is exercised by the correspondence check only.
-   Full statement wanted:  wf p -> nest names new_out p = Ok p' -> o retained -> kw over the root arguments of p'
-                           -> neval p' kw o = neval p kw o   (up to fuel). *)
+(* nest_preserves, in two halves (values are compared up to fuel: `neval n .. = Ok v` for some n).
+   For a pipeline with unique non-empty outputs and consistent defaults declared for parameters (what construction
+   checks), keywords that do not name an output produced inside the nested group, and a new_out that keeps every
+   output of the group consumed by a function outside:
+   - C10_nest_sound    : whatever the pipeline produced by nest_funcs(names, new_out) computes, the original computes;
+   - C10_nest_complete : whatever the original computes for a retained output, the rewritten pipeline computes,
+                         provided the arguments of the new nested function (one function: it needs all its inputs)
+                         have values in the rewritten pipeline. *)
 Theorem C10_nest_sound : forall body pick names new_out p p' kw,
   nest names new_out p = Ok p' ->
   (forall n1 n2 o, In n1 p -> In n2 p -> In o (outs (nf n1)) -> In o (outs (nf n2)) -> n1 = n2) ->
@@ -223,6 +222,22 @@ Theorem C10_nest_sound : forall body pick names new_out p p' kw,
   forall n o v, neval body pick n p' kw o = Ok v -> exists m, neval body pick m p kw o = Ok v.
 Proof. exact nest_preserves. Qed.
 Print Assumptions C10_nest_sound.
+
+Theorem C10_nest_complete : forall body pick names new_out p p' kw,
+  nest names new_out p = Ok p' ->
+  (forall n1 n2 o, In n1 p -> In n2 p -> In o (outs (nf n1)) -> In o (outs (nf n2)) -> n1 = n2) ->
+  (forall n, In n p -> outs (nf n) <> []) ->
+  let fs := group p names in
+  (forall k, In k (akeys kw) -> ~ In k (all_outputs (funcs fs))) ->
+  (forall a c, In a p -> ~ In a fs -> In c (pnames (nf a)) -> ahas (bound (nf a)) c = false ->
+               In c (all_outputs (funcs fs)) -> In c (nested_outs fs new_out)) ->
+  (forall n k, In n p -> In k (akeys (dflt (nf n))) -> In k (pnames (nf n))) ->
+  consistent_defaults (funcs p) = true ->
+  (exists M args, args_with (neval body pick M p' kw) (funcs p') kw (nf (last p' dummy_node)) = Ok args) ->
+  forall n o v, neval body pick n p kw o = Ok v -> In o (all_outputs (funcs p')) ->
+                exists m, neval body pick m p' kw o = Ok v.
+Proof. exact nest_preserves_complete. Qed.
+Print Assumptions C10_nest_complete.
 
 (* non-vacuity: f(x)->a, g(a,y)->b, h(b,a)->c ; nest {a, b} keeping (a, b) *)
 Example C10_example_nest :
